@@ -62,6 +62,7 @@ type fakeAgglayer struct {
 	failHdr  bool // next GetCertificateHeader fails
 	failSub  bool // next SubmitCertificate fails (not applied)
 	failRec  bool // next GetLatestCertificateHeader fails
+	failRecOnly string // "" = whichever comes first, "p" = the pending-header query only, "s" = the settled-header query only
 	omitPrev bool // headers carry no prev_local_exit_root (older Agglayer)
 	onSubmit func(c *asCert)
 }
@@ -152,7 +153,8 @@ func (f *fakeAgglayer) lastPending() *asCert {
 
 func (f *fakeAgglayer) GetLatestCertificateHeader(ctx context.Context, in *v1.GetLatestCertificateHeaderRequest,
 	opts ...grpc.CallOption) (*v1.GetLatestCertificateHeaderResponse, error) {
-	if f.failRec {
+	isSettled := in.Type == v1.LatestCertificateRequestType_LATEST_CERTIFICATE_REQUEST_TYPE_SETTLED
+	if f.failRec && (f.failRecOnly == "" || (f.failRecOnly == "s") == isSettled) {
 		f.failRec = false
 		return nil, errors.New("verif: agglayer unavailable")
 	}
@@ -278,6 +280,34 @@ type asStorage struct {
 
 type asCrash struct{}
 
+// one-shot read fault: the certificate table is renamed away for the duration of the one "last certificate" read
+func (s *asStorage) hidden(f func()) {
+	w := s.w
+	if !w.hideRead {
+		f()
+		return
+	}
+	w.hideRead = false
+	ctl, err := openCtl(w.storePath)
+	must(err)
+	defer ctl.Close()
+	_, err = ctl.Exec(`ALTER TABLE certificate_info RENAME TO certificate_info_verif_away`)
+	must(err)
+	f()
+	_, err = ctl.Exec(`ALTER TABLE certificate_info_verif_away RENAME TO certificate_info`)
+	must(err)
+}
+
+func (s *asStorage) GetLastSentCertificateHeader() (h *aggsendertypes.CertificateHeader, err error) {
+	s.hidden(func() { h, err = s.AggSenderStorage.GetLastSentCertificateHeader() })
+	return
+}
+
+func (s *asStorage) GetLastSentCertificateHeaderWithProofIfInError(ctx context.Context) (h *aggsendertypes.CertificateHeader, p *aggsendertypes.AggchainProof, err error) {
+	s.hidden(func() { h, p, err = s.AggSenderStorage.GetLastSentCertificateHeaderWithProofIfInError(ctx) })
+	return
+}
+
 func (s *asStorage) SaveLastSentCertificate(ctx context.Context, c aggsendertypes.Certificate) error {
 	w := s.w
 	if w.crashAtSave {
@@ -355,6 +385,7 @@ type asWorld struct {
 	storePath string
 	// reference data
 	l2Blocks  map[uint64][]asL2Ev
+	hideRead  bool
 	l2Last    uint64
 	nDeposits uint32
 	dep       depTree
@@ -772,7 +803,15 @@ func (w *asWorld) exec(line string) string {
 		if ws[0] == "l2blk!" {
 			ctl, err := openCtl(filepath.Join(w.dir, "l2.sqlite"))
 			must(err)
-			_, err = ctl.Exec(`CREATE TRIGGER verif_l2f BEFORE INSERT ON bridge BEGIN SELECT RAISE(ABORT,'verif fault'); END;`)
+			// the row of the block's LAST bridge (if any): every leaf of the block is already in the frontier when it fails
+			cond := ""
+			for k := len(blk.Events) - 1; k >= 0; k-- {
+				if b := blk.Events[k].(bridgesync.Event).Bridge; b != nil {
+					cond = fmt.Sprintf(" WHEN NEW.deposit_count = %d", b.DepositCount)
+					break
+				}
+			}
+			_, err = ctl.Exec(`CREATE TRIGGER verif_l2f BEFORE INSERT ON bridge` + cond + ` BEGIN SELECT RAISE(ABORT,'verif fault'); END;`)
 			must(err)
 			err1 := w.l2.ProcessBlock(ctx, blk)
 			_, err = ctl.Exec(`DROP TRIGGER verif_l2f`)
@@ -799,8 +838,12 @@ func (w *asWorld) exec(line string) string {
 	case "failsub":
 		w.agg.failSub = true
 		return "ok"
-	case "failrec":
+	case "failrec": // failrec [p|s]
 		w.agg.failRec = true
+		w.agg.failRecOnly = ""
+		if len(ws) > 1 {
+			w.agg.failRecOnly = ws[1]
+		}
 		return "ok"
 	case "savefault":
 		w.saveFault = int(u(ws[1]))
@@ -860,6 +903,29 @@ func (w *asWorld) exec(line string) string {
 			w.checkRefusal(callFails)
 		}
 		return res + " rows=" + w.rowsDump()
+	case "epoch?": // an epoch tick in which the read of the last certificate fails (table renamed away for that one read)
+		if w.node == nil {
+			return "down"
+		}
+		nBefore := len(w.agg.certs)
+		w.hideRead = true
+		w.node.VerifClearLastError()
+		w.epoch.ch <- aggsendertypes.EpochEvent{Epoch: 1}
+		w.node.VerifLoopOnce(ctx, false)
+		w.hideRead = false
+		w.agg.failHdr, w.agg.failSub = false, false
+		out := "tick"
+		if len(w.agg.certs) > nBefore {
+			c := w.agg.certs[len(w.agg.certs)-1]
+			out += " " + w.describeSubmission(c)
+			w.fail(fmt.Sprintf("[C13,C02] a certificate (id %d, height %d) was built and submitted although the node could not read its own records: a failed read was taken for an empty store", c.id, c.req.Height))
+		} else if w.node.VerifLastError() != "" {
+			out += " nosub err"
+		} else {
+			out += " nosub noerr"
+		}
+		w.r.Count("tick-with-unreadable-records")
+		return out + " rows=" + w.rowsDump()
 	case "epoch", "status", "epoch!", "status!":
 		if w.node == nil {
 			return "down"
